@@ -1,0 +1,26 @@
+//go:build verif
+// +build verif
+
+package util
+
+import (
+	"os"
+	"strconv"
+	"syscall"
+)
+
+var verifCrashCounter int
+
+// verifCrashPoint kills the process (SIGKILL) when it is called for the n-th time,
+// n given by the environment variable HC_VERIF_CRASH (0-based). Only built with
+// the "verif" tag; used to check that storage writes are crash-atomic.
+func verifCrashPoint() {
+	s := os.Getenv("HC_VERIF_CRASH")
+	if s != "" {
+		if n, err := strconv.Atoi(s); err == nil && n == verifCrashCounter {
+			syscall.Kill(syscall.Getpid(), syscall.SIGKILL)
+			select {}
+		}
+	}
+	verifCrashCounter++
+}
